@@ -36,6 +36,15 @@ class Frame:
         if not self.rows: self.rows = [dict() for _ in values]
         for r, v in zip(self.rows, values): r[col] = v
     def __getitem__(self, col):
+        if isinstance(col, list):             # column selection: every label must exist (pandas raises KeyError otherwise)
+            missing = [c for c in col if c not in self.cols]
+            if missing:
+                raise KeyError(f"{missing} not in index" if len(missing) < len(col) else f"None of [{col}] are in the [columns]")
+            out = Frame(); out.cols = list(col); out.index = self.index
+            out.rows = [{c: r.get(c) for c in col} for r in self.rows]
+            return out
+        if col not in self.cols:
+            raise KeyError(col)
         return [r.get(col) for r in self.rows]
     def __len__(self): return len(self.rows)
     def join(self, others, how='outer'):
